@@ -153,7 +153,8 @@ theorem C01_put_then_get (H : Bytes → Bytes) (sz : Bytes → Nat) (m : Mem)
       IdxInv m.cfg.kind.lt sz { m'.idx with lastPersisted := m.idx.lastPersisted, serializedSize := m.idx.serializedSize } ∧
       kLookup m'.idx.map key = some ⟨H chunks.flatten, chunks.flatten.length⟩ ∧
       (∀ k', k' ≠ key → kLookup m'.idx.map k' = kLookup m.idx.map k') ∧
-      (∃ x, (d.applyAll evs).get (.cas (H chunks.flatten)) = some x ∧ x.data = chunks.flatten) := by
+      (∃ x, (d.applyAll evs).get (.cas (H chunks.flatten)) = some x ∧ x.data = chunks.flatten ∧
+            (m.cfg.sync = true → x.synced = x.data.length)) := by
   have hlen : (chunks.map List.length).sum = chunks.flatten.length := by
     rw [List.length_flatten]
   obtain ⟨idx', unref, happ, ok, hl⟩ := applyOp_spec so sz m.idx inv
@@ -190,7 +191,8 @@ theorem C01_put_then_get (H : Bytes → Bytes) (sz : Bytes → Nat) (m : Mem)
     have hstage : ∃ x, ((d.applyAll (beginScript t)).applyAll
         ([Ev.write (.staging t) chunks.flatten] ++ (if m.cfg.sync then [Ev.sync (.staging t)] else []) ++
          (if m.preCreated then [] else mkdirsFor (d.applyAll (beginScript t)) (H chunks.flatten)))).get
-          (.staging t) = some x ∧ x.data = chunks.flatten := by
+          (.staging t) = some x ∧ x.data = chunks.flatten ∧
+          (m.cfg.sync = true → x.synced = x.data.length) := by
       have h0 : (d.applyAll (beginScript t)).get (.staging t) = some ⟨[], 0⟩ := by
         simp only [beginScript, Disk.applyAll, List.foldl]
         rw [Disk.get_creat]; simp [hfresh]
@@ -222,12 +224,12 @@ theorem C01_put_then_get (H : Bytes → Bytes) (sz : Bytes → Nat) (m : Mem)
         simp only [↓reduceIte]
         simp only [Disk.applyAll, List.foldl] at h1
         rw [h1]
-        exact ⟨_, rfl, rfl⟩
+        exact ⟨_, rfl, rfl, fun _ => rfl⟩
       · simp only [hs, Bool.false_eq_true, ↓reduceIte, Disk.applyAll, List.foldl]
         simp only [Disk.applyAll, List.foldl] at h1
-        exact ⟨_, h1, rfl⟩
-    obtain ⟨x, hx, hxd⟩ := hstage
-    refine ⟨x, ?_, hxd⟩
+        exact ⟨_, h1, rfl, fun c => by simp at c⟩
+    obtain ⟨x, hx, hxd, hxs⟩ := hstage
+    refine ⟨x, ?_, hxd, hxs⟩
     rw [Disk.applyAll_append, Disk.applyAll_append]
     have wmid := Disk.applyAll_WF _ w0
         ([Ev.write (.staging t) chunks.flatten] ++ (if m.cfg.sync then [Ev.sync (.staging t)] else []) ++
